@@ -641,7 +641,9 @@ class GetDescriptorHandlerMux(Elaboratable):
                 handler.start_position  .eq(self.start_position),
             ]
             stall_latch = Signal(name=f"stall_latch_{i}")
-            m.d.comb += stalled[i].eq(handler.stall | stall_latch)
+            # (A latched stall belongs to the previous request; ignore it in the cycle a new request starts,
+            #  as the latch is only cleared on the following clock edge.)
+            m.d.comb += stalled[i].eq(handler.stall | (stall_latch & ~self.start))
             with m.If(self.start | self.stall):
                 m.d.sync += stall_latch.eq(0)
             with m.If(handler.stall & ~self.stall):
